@@ -184,6 +184,26 @@ def _genset(task, res):
                                   "replay": {"kind": "genset", "task": task, "k_ref": k_ref, "witness": wit}})
     else:
         res["discharged"] += 1
+    # (a') every valid lower bound (any value <= the reference minimum, 0 included) leaves the answer unchanged
+    for lb in sorted({0, max(1, k_ref - 1), k_ref}):
+        if lb == 1:
+            continue                      # the default, decided under (a)
+        ml = _mgs(task, lowerbound=lb)
+        okl = ml.solve()
+        res["obligations"] += 1
+        soll = ml.get_solution() if okl else None
+        whyl = None
+        if not okl:
+            whyl = f"not solved with lowerbound={lb} (status {ml.solve_statistics.get('status')}); generating set of size {k_ref} exists: {wit}"
+        elif len(soll) != k_ref:
+            whyl = f"lowerbound={lb}: returned {soll} (size {len(soll)}), reference minimum {k_ref}"
+        else:
+            whyl = genset_valid(task, soll)
+        if whyl:
+            res["violations"].append({"signature": f"MinGenSet:valid-lowerbound-changes-result:lowerbound={'0' if lb == 0 else 'k_ref' if lb == k_ref else 'k_ref-1'}", "summary": f"{desc}: {whyl}",
+                                      "replay": {"kind": "genset", "task": task, "k_ref": k_ref, "witness": wit}})
+        else:
+            res["discharged"] += 1
     # (b) LP_k <=> Spec_k for every k in the search range (validates complement / zero / total removal)
     for k in range(1, min(kmax, k_ref + 1) + 1):
         mk = _mgs(task)
